@@ -167,7 +167,7 @@ func c13Case(c *checker, api string, t byte, b []byte) {
 	switch api {
 	case "env-stream", "env-decode":
 		wdEnter("A env " + hx(b))
-	case "frame":
+	case "frame", "frame8":
 		wdEnter("A frame " + hx(b))
 	default:
 		wdEnter(fmt.Sprintf("A stream %d %s", t, hx(b)))
@@ -191,7 +191,7 @@ func c13Case(c *checker, api string, t byte, b []byte) {
 			})
 		case "lazy":
 			got = measure(func() {
-				w, err := binary.Default.Decode(bytes.NewReader(b), wire.Type(t))
+				w, err := binary.Default.Decode(raSource(b), wire.Type(t))
 				if err == nil {
 					_ = wire.EvaluateValue(w)
 				}
@@ -205,14 +205,14 @@ func c13Case(c *checker, api string, t byte, b []byte) {
 			})
 		case "env-decode":
 			got = measure(func() {
-				e, err := binary.Default.DecodeEnveloped(bytes.NewReader(b))
+				e, err := binary.Default.DecodeEnveloped(raSource(b))
 				if err == nil {
 					_ = wire.EvaluateValue(e.Value)
 				}
 			})
 		case "decode-request":
 			got = measure(func() {
-				v, _, err := binary.Default.DecodeRequest(wire.Call, bytes.NewReader(b))
+				v, _, err := binary.Default.DecodeRequest(wire.Call, raSource(b))
 				if err == nil {
 					_ = wire.EvaluateValue(v)
 				}
@@ -227,6 +227,17 @@ func c13Case(c *checker, api string, t byte, b []byte) {
 				fr := verifhook.NewFrameReader(io.NopCloser(newChunkReader(b, nil)))
 				_, _ = fr.Read()
 			})
+		case "frame8":
+			// the threshold between the pre-allocating and the copying path lowered to 8 bytes
+			// (verif hook), so that an input of a few bytes delivers "a threshold's worth" of a
+			// frame that declares far more
+			modelOp = "A frameat 8 " + hx(b)
+			old := verifhook.SetFastPathFrameSize(8)
+			got = measure(func() {
+				fr := verifhook.NewFrameReader(io.NopCloser(newChunkReader(b, nil)))
+				_, _ = fr.Read()
+			})
+			verifhook.SetFastPathFrameSize(old)
 		}
 	})
 	elapsed := cpuTime() - t0 // CPU time of this process, not wall time: a loaded machine must not raise an alarm
@@ -268,6 +279,22 @@ func c13Case(c *checker, api string, t byte, b []byte) {
 }
 
 var slowCases int
+
+// readerAtOnly has ReadAt and nothing else: no Size, no Len, no Seek (an *os.File, or any wrapper
+// an application puts around its source, looks like this to the random-access decoder).
+type readerAtOnly struct{ r *bytes.Reader }
+
+func (r readerAtOnly) ReadAt(p []byte, off int64) (int, error) { return r.r.ReadAt(p, off) }
+
+var raAlt int
+
+// raSource is the source of a random-access decode: alternately a bytes.Reader and a readerAtOnly.
+func raSource(b []byte) io.ReaderAt {
+	if raAlt++; raAlt%2 == 0 {
+		return readerAtOnly{bytes.NewReader(b)}
+	}
+	return bytes.NewReader(b)
+}
 
 type pendingCost struct {
 	op  string
@@ -368,6 +395,10 @@ func runC13(c *checker, r *rng.R) {
 				c13Case(c, "read-request", 0, b)
 			}
 			c13Case(c, "frame", 0, legacy)
+			c13Case(c, "frame8", 0, legacy)
+		}
+		for _, present := range []int{7, 8, 9, 16, 33} {
+			c13Case(c, "frame8", 0, append(put32(make([]byte, 4), 0, L), bytes.Repeat([]byte{'a'}, present)...))
 		}
 		// element types: the defined ones, and codes the protocol does not define (a reader that
 		// learns to step over a new code must not do so one element at a time for a declared count)
@@ -394,7 +425,7 @@ func runC13(c *checker, r *rng.R) {
 	}
 	c13DeepNesting(c)
 	c.flushCost()
-	c.rep.Rule = "messages ≤ 64 bytes (random structs, optionally enveloped strict/legacy) with every 4-byte length/count position set to each of {2^16, 2^20-1, 2^20, 2^20+1, 2^24, 2^27, 2^31-1, 0xffffffff, 0x80000000}; top-level containers of every element type (the 11 defined codes and 12 undefined ones); envelope name length; frame length × APIs {stream primitives, Skip, Decode+EvaluateValue, ReadEnvelopeBegin, DecodeEnveloped, DecodeRequest, ReadRequest, frame reader}; deeply nested valid containers (1 item per level, up to 8000 levels: work must stay linear — known finding D79 for the lazy decoder); measured = runtime TotalAlloc delta; every case non-trivial; distinct by (api, bytes)"
+	c.rep.Rule = "messages ≤ 64 bytes (random structs, optionally enveloped strict/legacy) with every 4-byte length/count position set to each of {2^16, 2^20-1, 2^20, 2^20+1, 2^24, 2^27, 2^31-1, 0xffffffff, 0x80000000}; top-level containers of every element type (the 11 defined codes and 12 undefined ones); envelope name length; frame length (also with the frame reader's threshold lowered to 8 bytes and 7..40 bytes of the frame present) × APIs {stream primitives, Skip, Decode+EvaluateValue, ReadEnvelopeBegin, DecodeEnveloped, DecodeRequest, ReadRequest, frame reader}; the random-access APIs alternately over a bytes.Reader and over a source that has ReadAt and nothing else; deeply nested valid containers (1 item per level, up to 8000 levels: work must stay linear — known finding D79 for the lazy decoder); measured = runtime TotalAlloc delta; every case non-trivial; distinct by (api, bytes)"
 	_ = strings.TrimSpace
 }
 
